@@ -19,20 +19,20 @@ CaseOf(i) == [id |-> Cases[i][1], lim |-> Cases[i][2], exc |-> Cases[i][3] = 1,
               exc2 |-> Cases[i][6] = 1, out2 |-> Cases[i][7]]
 
 VARIABLES line, limit, rest, out, ctx, lead, phase, ref     \* FreeForm's wrapper
-VARIABLES cid, pc, pos
+VARIABLES cid, pc, pos, cmt0      \* cmt0: comment start of the replayed line
 F == INSTANCE FreeForm WITH Alphabet <- {}, MaxBody <- 0, CodeLimits <- {},
                             DirLimits <- {}, LinePrefixes <- {}
 wvars == <<line, limit, rest, out, ctx, lead, phase, ref>>
-vars  == <<line, limit, rest, out, ctx, lead, phase, ref, cid, pc, pos>>
+vars  == <<line, limit, rest, out, ctx, lead, phase, ref, cid, pc, pos, cmt0>>
 
 Init == /\ cid \in 1..Len(Cases)
-        /\ pc = "exc" /\ pos = 0
+        /\ pc = "exc" /\ pos = 0 /\ cmt0 = 0
         /\ line = <<>> /\ limit = 0 /\ rest = <<>> /\ out = <<>> /\ ctx = 0
         /\ lead = TRUE /\ phase = "idle" /\ ref = <<>>
 
 Verdict(c, clause, w) ==
   PrintT("VERDICT " \o ToJson([id |-> c.id, v |-> clause, w |-> w]))
-Goto(p) == pc' = p /\ UNCHANGED <<cid, pos>> /\ UNCHANGED wvars
+Goto(p) == pc' = p /\ UNCHANGED <<cid, pos, cmt0>> /\ UNCHANGED wvars
 
 \* ---- NeverFails
 StepExc == LET c == CaseOf(cid) IN
@@ -66,6 +66,7 @@ StepSame == LET c == CaseOf(cid) IN
                    tin  |-> IF d <= Len(pin) THEN Len(pin[d].t) ELSE 0,
                    tout |-> IF d <= Len(pout) THEN Len(pout[d].t) ELSE 0,
                    ampInComment |-> F!AmpInComment(c.out),
+                   ampAmpComment |-> F!AmpAmpThenComment(c.out),
                    dirOpSplit |-> F!DirOpSplit(c.out)])
   /\ Goto("idem")
 
@@ -80,19 +81,24 @@ StepIdem == LET c == CaseOf(cid) IN
      THEN /\ pc' = "replay" /\ pos' = 1
           /\ line' = c.in[1] /\ limit' = c.lim /\ rest' = c.in[1] /\ out' = <<>>
           /\ ctx' = 0 /\ lead' = TRUE /\ phase' = "run" /\ ref' = <<>>
+          /\ cmt0' = LET L == c.in[1]
+                         k == F!LineKind(L)
+                     IN F!ScanCode(L, IF k \in {"omp", "acc"} THEN F!FirstNB(L, 1) + 5 ELSE 1, 0).cmt
           /\ UNCHANGED cid
      ELSE Goto("end")
 
 \* ---- replay: output line `pos` must be produced by an action of the wrapper
 StepReplay == LET c == CaseOf(cid) IN
   /\ pc = "replay"
-  /\ UNCHANGED cid
+  /\ UNCHANGED <<cid, cmt0>>
   /\ IF pos = Len(c.out)
      THEN /\ F!Emit /\ out' = c.out
           /\ pc' = "replayed" /\ pos' = pos
      ELSE LET kind == F!KindOf
               from == IF kind \in {"omp", "acc"} THEN F!DirFrom ELSE 1
-              cmt  == F!ScanCode(rest, from, ctx).cmt
+              \* = F!ScanCode(rest, from, ctx).cmt : the comment does not move,
+              \* rest is the input line without the characters already cut off
+              cmt  == cmt0 - (Len(line) - Len(rest))
               k    == Len(c.out[pos]) - Len(F!ContStart(kind)) - Len(F!ContEnd(kind))
               c1   == F!ScanCode(SubSeq(rest, 1, k), from, ctx).ctx
           IN /\ k \in 1..(Len(rest) - 1)
